@@ -561,6 +561,186 @@ Section Total.
     apply good_ret; auto.
   Qed.
 
+  Lemma read_nested_good : forall fuel res ts n, toksL ts -> (length ts <= n)%nat -> (n < fuel)%nat ->
+    good n (read_nested endl fuel res ts).
+  Proof.
+    induction fuel as [|f IH]; intros res ts n H Hl Hf; [lia|]. cbn [read_nested].
+    unfold bind at 1. rewrite read_eq.
+    destruct (negb (ityp_eqb (ttyp (peek_tok endl ts)) TInt)) eqn:E.
+    - destruct (unread_peek ts H) as (ts' & Eu & Ok & Len). unfold bind. rewrite Eu. apply good_ret; auto. lia.
+    - assert (X : ttyp (peek_tok endl ts) <> TEOF).
+      { intros X. rewrite X in E. discriminate. }
+      pose proof (peek_not_eof_len ts X) as L1. pose proof (tl_ok0 ts H) as O1.
+      destruct (atoi _); [|gf]. destruct (_ || _); [gf|].
+      apply (good_bind_lt _ _ _ (length (tl ts))); [apply required_lt; auto|]. intros _ ts2 O2 L2.
+      unfold bind at 1. rewrite read_eq.
+      destruct (negb (ityp_eqb (ttyp (peek_tok endl ts2)) TInt)) eqn:E2; [gf|].
+      destruct (atoi _); [|gf]. destruct (_ || _); [gf|].
+      assert (L3 : (length (tl ts2) <= length ts2)%nat) by (destruct ts2; cbn; lia).
+      apply (good_weaken (length (tl ts2))); [lia|].
+      apply IH; [apply tl_ok0; auto|lia|lia].
+  Qed.
+
+  (* ---- GSUB5 ---- *)
+  Lemma goodlt_bind1 : forall {A B} (m : P A) (f : A -> P B) ts k n,
+    goodlt k (m ts) -> (k <= n)%nat ->
+    (forall a ts', toksL ts' -> (S (length ts') <= k)%nat -> good (length ts') (f a ts')) ->
+    goodlt n (bind m f ts).
+  Proof.
+    intros A B m f ts k n G Hk H. unfold bind. destruct (m ts) as [[a ts']|l| | |]; cbn in G; auto.
+    destruct G as [G1 G2]. specialize (H a ts' G1 G2).
+    destruct (f a ts') as [[b ts'']|l| | |]; cbn in *; auto. destruct H. split; auto. lia.
+  Qed.
+
+  Lemma goodlt_good : forall {A} n (r : presult (A * list token)), goodlt n r -> good n r.
+  Proof. intros A n [[a ts]|l| | |] G; cbn in *; auto. destruct G. split; auto. lia. Qed.
+
+  Lemma read_identifier_lt : forall ts k, toksL ts -> (length ts <= k)%nat -> goodlt k (read_identifier endl ts).
+  Proof.
+    intros ts k H Hl. unfold read_identifier, bind. rewrite read_eq.
+    destruct (ityp_eqb (ttyp (peek_tok endl ts)) TIdent) eqn:E; [|apply goodlt_fatal; apply tl_ok0; auto].
+    cbn. split; [apply tl_ok; auto|].
+    assert (X : ttyp (peek_tok endl ts) <> TEOF) by (intros X; rewrite X in E; discriminate).
+    apply peek_not_eof_len in X. lia.
+  Qed.
+
+  Lemma peek_good : forall ts, toksL ts ->
+    exists ts', peek endl ts = POk (peek_tok endl ts, ts') /\ toksL ts' /\ (length ts' <= length ts)%nat.
+  Proof.
+    intros ts H. unfold peek, bind. rewrite read_eq.
+    destruct (unread_peek ts H) as (ts' & Eu & Ok & Len). rewrite Eu. cbn. exists ts'. auto.
+  Qed.
+
+  Lemma rgs_lt : forall fuel ts n, toksL ts -> (length ts <= n)%nat -> (n < fuel)%nat ->
+    goodlt n (read_glyph_set F endl fuel ts).
+  Proof.
+    intros fuel ts n H Hl Hf. unfold read_glyph_set.
+    apply (goodlt_bind1 _ _ _ n n); [apply required_lt; auto|lia|]. intros _ ts1 O1 L1.
+    apply (good_bind _ _ _ (length ts1)); [apply rgl_good; auto; lia|]. intros res ts2 O2 L2.
+    apply (good_bind _ _ _ (length ts2)); [apply goodlt_good; apply required_lt; auto|]. intros _ ts3 O3 L3.
+    apply good_ret; auto. lia.
+  Qed.
+
+  Lemma parse_class_def_lt : forall fuel ts n, toksL ts -> (length ts <= n)%nat -> (n < fuel)%nat ->
+    goodlt n (parse_class_def F endl fuel ts).
+  Proof.
+    intros fuel ts n H Hl Hf. unfold parse_class_def.
+    apply (goodlt_bind1 _ _ _ n n); [apply read_identifier_lt; auto|lia|]. intros _ ts1 O1 L1.
+    apply (good_bind _ _ _ (length ts1)); [apply goodlt_good; apply required_lt; auto|]. intros _ ts2 O2 L2.
+    apply (good_bind _ _ _ (length ts2)); [apply goodlt_good; apply read_identifier_lt; auto|]. intros nm ts3 O3 L3.
+    apply (good_bind _ _ _ (length ts3)); [apply goodlt_good; apply required_lt; auto|]. intros _ ts4 O4 L4.
+    apply (good_bind_opt TEqual _ ts4 (length ts4) (length ts1)); auto; intros ts5 O5 L5;
+      (apply (good_bind _ _ _ (length ts5)); [apply rgs_good; auto; lia|]; intros gl ts6 O6 L6;
+       destruct (is_nil gl); [gf|apply good_ret; auto; lia]).
+  Qed.
+
+  Lemma read_class_name_lt : forall ts n, toksL ts -> (length ts <= n)%nat ->
+    goodlt n (read_class_name endl ts).
+  Proof.
+    intros ts n H Hl. unfold read_class_name.
+    apply (goodlt_bind1 _ _ _ n n); [apply required_lt; auto|lia|]. intros _ ts1 O1 L1.
+    unfold bind at 1. rewrite read_eq. pose proof (tl_ok0 ts1 O1) as O2.
+    assert (L2 : (length (tl ts1) <= length ts1)%nat) by (destruct ts1; cbn; lia).
+    destruct (ttyp (peek_tok endl ts1)); try gf.
+    - apply good_ret; auto.
+    - apply (good_bind _ _ _ (length (tl ts1))); [apply goodlt_good; apply required_lt; auto|].
+      intros _ ts3 O3 L3. apply good_ret; auto. lia.
+  Qed.
+
+  Lemma rcn_good : forall fuel acc ts n, toksL ts -> (length ts <= n)%nat -> (n < fuel)%nat ->
+    good n (read_class_names endl fuel acc ts).
+  Proof.
+    induction fuel as [|f IH]; intros acc ts n H Hl Hf; [lia|]. cbn [read_class_names].
+    destruct (peek_good ts H) as (ts1 & Ep & O1 & L1). unfold bind at 1. rewrite Ep.
+    destruct (ityp_eqb (ttyp (peek_tok endl ts)) TColon); [|apply good_ret; auto; lia].
+    apply (good_bind_lt _ _ _ (length ts1)); [apply read_class_name_lt; auto|]. intros nm ts2 O2 L2.
+    apply (good_weaken (length ts2)); [lia|]. apply IH; auto. lia.
+  Qed.
+
+  Lemma ctx1_loop_good : forall fuel data ts n, toksL ts -> (length ts <= n)%nat -> (n < fuel)%nat ->
+    good n (ctx1_loop F endl fuel data ts).
+  Proof.
+    induction fuel as [|f IH]; intros data ts n H Hl Hf; [lia|]. cbn [ctx1_loop].
+    apply (good_bind _ _ _ n); [apply rgl_good'; auto|]. intros inp ts1 O1 L1.
+    apply (good_bind_lt _ _ _ n); [apply required_lt; auto|]. intros _ ts2 O2 L2.
+    apply (good_bind _ _ _ (length ts2)); [apply read_nested_good; auto; lia|]. intros acts ts3 O3 L3.
+    destruct inp as [|key rest].
+    { unfold bind. rewrite read_eq. gf. }
+    apply (good_bind_opt TComma _ ts3 (length ts2) n); auto.
+    - intros ts4 O4 L4. apply (good_bind_opt TEOL _ ts4 (length ts4) n); auto;
+        intros ts5 O5 L5; apply (good_weaken (length ts5)); try lia; apply IH; auto; lia.
+    - intros ts4 O4 L4. apply good_ret; auto. lia.
+  Qed.
+
+  Lemma ctx2_loop_good : forall fuel names data ts n, toksL ts -> (length ts <= n)%nat -> (n < fuel)%nat ->
+    good n (ctx2_loop endl fuel names data ts).
+  Proof.
+    induction fuel as [|f IH]; intros names data ts n H Hl Hf; [lia|]. cbn [ctx2_loop].
+    apply (good_bind _ _ _ n); [apply rcn_good; auto|]. intros nms ts1 O1 L1.
+    apply (good_bind_lt _ _ _ n); [apply required_lt; auto|]. intros _ ts2 O2 L2.
+    apply (good_bind _ _ _ (length ts2)); [apply read_nested_good; auto; lia|]. intros acts ts3 O3 L3.
+    destruct (is_nil nms); [gf|]. destruct (classes_of names nms) as [[|c rest]|]; try gf.
+    apply (good_bind_opt TComma _ ts3 (length ts2) n); auto.
+    - intros ts4 O4 L4. apply (good_bind_opt TEOL _ ts4 (length ts4) n); auto;
+        intros ts5 O5 L5; apply (good_weaken (length ts5)); try lia; apply IH; auto; lia.
+    - intros ts4 O4 L4. apply good_ret; auto. lia.
+  Qed.
+
+  Lemma ctx3_sets_good : forall fuel acc ts n, toksL ts -> (length ts <= n)%nat -> (n < fuel)%nat ->
+    good n (ctx3_sets F endl fuel acc ts).
+  Proof.
+    induction fuel as [|f IH]; intros acc ts n H Hl Hf; [lia|]. cbn [ctx3_sets].
+    apply (good_bind_lt _ _ _ n); [apply rgs_lt; auto|]. intros gs ts1 O1 L1.
+    apply (good_bind_opt TArrow _ ts1 (length ts1) n); auto.
+    - intros ts2 O2 L2. apply good_ret; auto. lia.
+    - intros ts2 O2 L2. apply (good_weaken (length ts2)); [lia|]. apply IH; auto. lia.
+  Qed.
+
+  Lemma seqctx_loop_good : forall fuel names classes subs ts n,
+    toksL ts -> (length ts <= n)%nat -> (n < fuel)%nat ->
+    good n (seqctx_loop F endl fuel names classes subs ts).
+  Proof.
+    induction fuel as [|f IH]; intros names classes subs ts n H Hl Hf; [lia|]. cbn [seqctx_loop].
+    destruct (peek_good ts H) as (ts1 & Ep & O1 & L1). unfold bind at 1. rewrite Ep.
+    destruct (is_ident (peek_tok endl ts) k_class).
+    - apply (good_bind_lt _ _ _ (length ts1)); [apply parse_class_def_lt; auto; lia|]. intros d ts2 O2 L2.
+      destruct (existsb _ names); [gf|]. destruct (existsb _ (snd d)); [gf|].
+      apply (good_bind_opt TEOL _ ts2 (length ts2) n); auto;
+        intros ts3 O3 L3; apply (good_weaken (length ts3)); try lia; apply IH; auto; lia.
+    - assert (Hk : forall (r : subtable * list (list N) * list (list N)) ts2, toksL ts2 -> (length ts2 <= length ts1)%nat ->
+                good n ((let '(sub, names', classes') := r in
+                         b <- optional endl TOr ;;
+                         if b then (optional endl TEOL ;;; seqctx_loop F endl f names' classes' (subs ++ [sub]))
+                         else ret (subs ++ [sub])) ts2)).
+      { intros [[sub names'] classes'] ts2 O2 L2.
+        apply (good_bind_opt TOr _ ts2 (length ts2) n); auto.
+        - intros ts3 O3 L3. apply (good_bind_opt TEOL _ ts3 (length ts3) n); auto;
+            intros ts4 O4 L4; apply (good_weaken (length ts4)); try lia; apply IH; auto; lia.
+        - intros ts3 O3 L3. apply good_ret; auto. lia. }
+      apply (good_bind _ _ _ (length ts1)); [|intros r ts2 O2 L2; apply Hk; auto].
+      destruct (ityp_eqb (ttyp (peek_tok endl ts)) TSlash).
+      + apply (good_bind _ _ _ (length ts1)); [apply goodlt_good; apply required_lt; auto|]. intros _ ts2 O2 L2.
+        apply (good_bind _ _ _ (length ts2)); [apply rgl_good'; auto; lia|]. intros first ts3 O3 L3.
+        apply (good_bind _ _ _ (length ts3)); [apply goodlt_good; apply required_lt; auto|]. intros _ ts4 O4 L4.
+        apply (good_bind _ _ _ (length ts4)); [apply ctx2_loop_good; auto; lia|]. intros data ts5 O5 L5.
+        apply good_ret; auto. lia.
+      + destruct (ityp_eqb (ttyp (peek_tok endl ts)) TLBr).
+        * apply (good_bind _ _ _ (length ts1)); [apply ctx3_sets_good; auto; lia|]. intros sets ts2 O2 L2.
+          apply (good_bind _ _ _ (length ts2)); [apply read_nested_good; auto; lia|]. intros acts ts3 O3 L3.
+          apply good_ret; auto. lia.
+        * apply (good_bind _ _ _ (length ts1)); [apply ctx1_loop_good; auto; lia|]. intros data ts2 O2 L2.
+          apply good_ret; auto.
+  Qed.
+
+  Lemma read_seqctx_good : forall fuel ty ts n, toksL ts -> (length ts <= n)%nat -> (n < fuel)%nat ->
+    good n (read_seqctx F endl fuel ty ts).
+  Proof.
+    intros fuel ty ts n H Hl Hf. unfold read_seqctx.
+    apply (good_bind _ _ _ n); [apply header_good; auto|]. intros fl ts1 O1 L1.
+    apply (good_bind _ _ _ n); [apply seqctx_loop_good; auto|]. intros res ts2 O2 L2.
+    apply good_ret; auto.
+  Qed.
+
   Lemma parse_loop_good : forall fuel acc ts n, toksL ts -> (length ts <= n)%nat -> (n < fuel)%nat ->
     good n (parse_loop F endl fuel acc ts).
   Proof.
@@ -584,29 +764,11 @@ Section Total.
       + apply (Hk (read_gsub2 F endl)); auto. intros; apply read_gsub2_good; auto.
       + apply (Hk (read_gsub3 F endl)); auto. intros; apply read_gsub3_good; auto.
       + apply (Hk (read_gsub4 F endl)); auto. intros; apply read_gsub4_good; auto.
+      + apply (Hk (fun fu => read_seqctx F endl fu 5)); auto. intros; apply read_seqctx_good; auto.
       + apply (Hk (read_gpos1 F endl)); auto. intros; apply read_gpos1_good; auto.
     - destruct Hs as [O1 L1]; [discriminate|]. apply (good_weaken (length (tl ts))); [lia|]. apply IH; auto. lia.
   Qed.
 
-  Lemma read_nested_good : forall fuel res ts n, toksL ts -> (length ts <= n)%nat -> (n < fuel)%nat ->
-    good n (read_nested endl fuel res ts).
-  Proof.
-    induction fuel as [|f IH]; intros res ts n H Hl Hf; [lia|]. cbn [read_nested].
-    unfold bind at 1. rewrite read_eq.
-    destruct (negb (ityp_eqb (ttyp (peek_tok endl ts)) TInt)) eqn:E.
-    - destruct (unread_peek ts H) as (ts' & Eu & Ok & Len). unfold bind. rewrite Eu. apply good_ret; auto. lia.
-    - assert (X : ttyp (peek_tok endl ts) <> TEOF).
-      { intros X. rewrite X in E. discriminate. }
-      pose proof (peek_not_eof_len ts X) as L1. pose proof (tl_ok0 ts H) as O1.
-      destruct (atoi _); [|gf]. destruct (_ || _); [gf|].
-      apply (good_bind_lt _ _ _ (length (tl ts))); [apply required_lt; auto|]. intros _ ts2 O2 L2.
-      unfold bind at 1. rewrite read_eq.
-      destruct (negb (ityp_eqb (ttyp (peek_tok endl ts2)) TInt)) eqn:E2; [gf|].
-      destruct (atoi _); [|gf]. destruct (_ || _); [gf|].
-      assert (L3 : (length (tl ts2) <= length ts2)%nat) by (destruct ts2; cbn; lia).
-      apply (good_weaken (length (tl ts2))); [lia|].
-      apply IH; [apply tl_ok0; auto|lia|lia].
-  Qed.
 End Total.
 
 (* Parse of any text, over any font without a cmap entry for glyph 65535:
